@@ -1,7 +1,7 @@
 GROUP = {
     # emit_otlp with default-features = false (emit: std + sval + implicit_internal_rt)
     "stub_sets": ["otlp"],
-    "kani_args": ["-Z", "stubbing"],
+    "kani_args": ["-Z", "stubbing", "-Z", "restrict-vtable"],
     "modules": ["util", "c14_route"],
     "cbmc_args": [],
 }
